@@ -198,6 +198,32 @@ namespace ratio
     smt::lit tmp_ni;             // the temporary controlling literal, used for restoring the controlling literal..
     smt::lit ni = smt::TRUE_lit; // the controlling literal..
 
+#ifdef ORATIO_VERIF
+  public:
+    // verification hook (add-only, no effect on the solving process): remembers which environment executed which
+    // rule body / disjunct / formula statement / constructor and under which controlling literal, and keeps these
+    // environments alive so that the values of their local variables can be read back from a solution..
+    struct verif_rec
+    {
+      int kind;                        // 0: rule application, 1: disjunct application, 2: disjunction statement, 3: formula statement, 4: constructor invocation
+      const void *subject;             // 0: the atom, 1: the conjunction, 3: the new atom, 4: the item
+      const void *decl;                // 0: the predicate whose body is executed, 3: the predicate, 4: the constructor
+      env *where;                      // the environment in which the statements are executed
+      env *parent;                     // 1: the context the disjunct has been applied within
+      smt::lit ni;                     // the controlling literal at that moment
+      std::string name;                // 3: the name of the formula
+      bool is_fact;                    // 3: fact or goal
+      std::vector<const void *> conjs; // 2: the conjunctions of the disjunction, in source order
+    };
+    std::vector<verif_rec> verif_recs;
+    std::vector<context *> verif_keep;
+    void verif_note(int kind, const void *subject, const void *decl, const context &where, env *parent = nullptr, const std::string &name = "", bool is_fact = false, std::vector<const void *> conjs = {})
+    {
+      verif_keep.push_back(new context(where));
+      verif_recs.push_back({kind, subject, decl, &*where, parent, ni, name, is_fact, std::move(conjs)});
+    }
+#endif
+
 #ifdef BUILD_LISTENERS
   private:
     std::vector<core_listener *> listeners; // the core listeners..
